@@ -7,7 +7,7 @@ import time
 from vlib import model, simworld as S, tlc, tracecheck
 from adapters import poolsim
 
-SRC = "/repo/windpyutils/parallel/storage.py"
+SRC = tlc.REPO + "/windpyutils/parallel/storage.py"
 OBS = os.path.join(tlc.SPECS, "storage", "StorageObs.tla")
 IMPL = os.path.join(tlc.SPECS, "storage", "MC_TextFileStorage.tla")
 DECOR = ["", " žž€", "  ", "\t|", " \U0001d11e x"]
@@ -225,6 +225,14 @@ def run(ctx):
         ctx.extra["controlled_legs"] = "not-run"
         controlled = False
     if controlled:
+        # the implementation-shaped model is bound to the code step by step, in both directions (evidence only, never an alarm)
+        from adapters import storageconf
+        try:
+            storageconf.conformance(ctx, h, random.Random(ctx.seed * 7919 + 141), quick)
+        except tlc.MachineryError:
+            raise
+        except Exception as e:      # the code no longer runs under this harness the way the model expects: a note, not an alarm
+            ctx.extra["conformance_with_TextFileStorage_tla"] = {"status": "not-run", "why": "%s: %s" % (type(e).__name__, str(e)[:200])}
         worlds, ws = poolsim.explore_all(h, scens, ctx.seed * 7919 + 14, 400 if quick else 15000, ctx, est_len=120)
         steps = sum(w.steps for w in worlds)
         outcomes = {}
